@@ -99,6 +99,9 @@ pub mod async_fs {
     pub struct File { _p: () }
     impl File {
         pub uninterp spec fn content(&self) -> Seq<u8>;
+        // what was accepted has reached the disk: async_fs::File hands writes to a background thread and reports a failed
+        // write at the next operation, so only a successful close() (or flush) says the content is really there
+        pub uninterp spec fn durable(&self) -> bool;
         #[verifier::prophetic]
         pub uninterp spec fn fend(&self) -> Seq<u8>;
         #[verifier::external_body]
@@ -130,7 +133,9 @@ pub mod async_fs {
         #[verifier::external_body]
         fn flush(&mut self) -> (r: Result<(), std::io::Error>) { unimplemented!() }
         #[verifier::external_body]
-        fn close(&mut self) -> (r: Result<(), std::io::Error>) { unimplemented!() }
+        fn close(&mut self) -> (r: Result<(), std::io::Error>)
+            ensures r is Ok ==> final(self).durable()
+        { unimplemented!() }
     }
 }
 
